@@ -91,10 +91,9 @@ func pruneDocNulls(doc *partialDoc, options *ApplyOptions) *partialDoc {
 func pruneAryNulls(ary *partialArray, options *ApplyOptions) *partialArray {
 	newAry := []*lazyNode{}
 
+	// RFC 7396 stores an array value as it is: nulls are only dropped from
+	// objects that are merged, never from what an array contains.
 	for _, v := range ary.nodes {
-		if v != nil {
-			pruneNulls(v, options)
-		}
 		newAry = append(newAry, v)
 	}
 
